@@ -160,6 +160,11 @@ def gen_program(seed, nloggers=3, nstmts=14):
         st["items"] = [{"kind": "int", "v": 255, "id": ids.item}, {"kind": "dbl", "v": 2.5, "id": ids.item + 1}]
         ids.item += 2
         lg["stmts"].append(st)
+        # (g) a statement issued from a destructor while an exception is unwinding the stack
+        for form in ("expr", "named"):
+            st = _stmt(rng, ids, rng.randrange(6), form, 3, simple=True)
+            st["unwinding"] = True
+            lg["stmts"].append(st)
         # (e) the tag is taken when the statement starts: a named stream whose tag argument is a
         # variable that changes before the stream object dies
         st = _stmt(rng, ids, rng.randrange(3, 6), "named", 2, simple=True, tagged=True)
@@ -334,8 +339,17 @@ def source(prog):
           (k, k, ", ".join(lg["sinks"]), k))
     for lg in prog["loggers"]:
         k = lg["k"]
+        for st in lg["stmts"]:
+            if st.get("unwinding"):
+                A("struct Unwind%d { ~Unwind%d() {" % (st["id"], st["id"]))
+                for line in stmt_code(k, st, "    ", "s"):
+                    A(line)
+                A("} };")
         A("static void run_%d() {" % k)
         for st in lg["stmts"]:
+            if st.get("unwinding"):
+                A("    try { Unwind%d guard; throw %d; } catch (int) { }" % (st["id"], st["id"]))
+                continue
             for line in stmt_code(k, st, "    ", "s"):
                 A(line)
         A("}")
